@@ -85,7 +85,10 @@ PROPS = {'C18': {'title': 'Inflights window is a bounded FIFO under resizing',
                      'entries that exist in the log (precondition of the scan), ignores MsgHup on a non-voter and on a lone voter with an unpersisted log; '
                      'on_persist_entries / maybe_commit work on a leader that is no longer tracked; applied_to accepts the current applied index in the '
                      'restart window; send accepts a pre-vote rejection at term 0; RawNode::step rejects local messages and responses from unknown peers '
-                     'without changing state'],
+                     'without changing state',
+                     'the abort of Raft::load_state (stored commit index beyond the log) is a proof obligation in mode S too, discharged by Raft::new under '
+                     'the stated assumption that the stored commit index is not beyond the stored log; a stored commit index BELOW the first index (lazy '
+                     'persistence + compaction) is accepted'],
          'undecided': ['that the preconditions hold in every reachable cluster state (global invariant)',
                        'panic-freedom of the raft.rs / raw_node.rs bodies themselves (mode S assumes the abort paths away): covered only by the bounded '
                        'monitors mon_c06 --prop C20 and mon_cluster --prop C20 in both tiers',
@@ -93,8 +96,9 @@ PROPS = {'C18': {'title': 'Inflights window is a bounded FIFO under resizing',
                        'DESIGN.md A.4'],
          'assumptions': ['mode S for raft.rs and raw_node.rs (fatal!/panic!/assert! abort; postconditions hold on normal return)',
                          'assumed contracts (fingerprint-locked in spec/assumed.lock.json): ProgressTracker::{get_mut, record_vote, clear}, '
-                         'Configuration::to_conf_state, Raft::has_unapplied_conf_changes (K-ext Kani), RaftCore::try_batching (K-ext Kani); '
-                         'ReadOnly is under contract over a byte-keyed view of its table: the five std HashMap operations with Vec<u8> / &[u8] keys are specified helpers (verif_ri_*)',
+                         'Configuration::to_conf_state, Raft::has_unapplied_conf_changes (K-ext Kani), RaftCore::try_batching (K-ext Kani); ReadOnly is under '
+                         'contract over a byte-keyed view of its table: the five std HashMap operations with Vec<u8> / &[u8] keys are specified helpers '
+                         '(verif_ri_*)',
                          'specified helpers for std / protobuf calls (R9) and the three cut texts (R10) listed in the evidence file'],
          'bounded': ['mon_c06 --prop C20 (RawNode driver, panics only)', 'mon_cluster --prop C20 (three nodes, lossy network, panics only)']},
  'C11': {'title': 'Quorum arithmetic: commit index and vote tallies are exact',
@@ -128,15 +132,17 @@ PROPS = {'C18': {'title': 'Inflights window is a bounded FIFO under resizing',
                      'only when the entries are unavailable or one was requested (not older than requested); heartbeats advertise min(matched, committed); '
                      'send_append / send_append_aggressively / bcast_append / bcast_heartbeat push only replication / heartbeat traffic; the uncommitted-size '
                      'accounting (admit iff within the limit or nothing outstanding or empty payload; reset at the old tail on election; reduce on hand-out) '
-                     'equals its model'],
+                     'equals its model',
+                     'Progress::maybe_decr_to: a rejection of an index the follower has acknowledged since never releases a probe that is in flight'],
          'undecided': ['the history statement over all sends to a follower'],
          'bounded': ['K-ext Kani c13_try_batching: after try_batching every MsgAppend in the outbox is still an anchored contiguous run (outbox of 2, <= 2 new '
                      'entries)',
                      'mon_c14 (log reads)'],
          'assumptions': ['mode S for raft.rs and raw_node.rs (fatal!/panic!/assert! abort; postconditions hold on normal return)',
                          'assumed contracts (fingerprint-locked in spec/assumed.lock.json): ProgressTracker::{get_mut, record_vote, clear}, '
-                         'Configuration::to_conf_state, Raft::has_unapplied_conf_changes (K-ext Kani), RaftCore::try_batching (K-ext Kani); '
-                         'ReadOnly is under contract over a byte-keyed view of its table: the five std HashMap operations with Vec<u8> / &[u8] keys are specified helpers (verif_ri_*)',
+                         'Configuration::to_conf_state, Raft::has_unapplied_conf_changes (K-ext Kani), RaftCore::try_batching (K-ext Kani); ReadOnly is under '
+                         'contract over a byte-keyed view of its table: the five std HashMap operations with Vec<u8> / &[u8] keys are specified helpers '
+                         '(verif_ri_*)',
                          'specified helpers for std / protobuf calls (R9) and the three cut texts (R10) listed in the evidence file']},
  'C03': {'title': 'Leader completeness and the election restriction',
          'modules': ['top', 'prelude', 'pb', 'inflights', 'progress', 'quorum', 'tracker', 'log_unstable', 'storage_trait', 'raft_log', 'raft'],
@@ -152,28 +158,47 @@ PROPS = {'C18': {'title': 'Inflights window is a bounded FIFO under resizing',
          'undecided': ['leader completeness itself (cluster-wide induction)'],
          'assumptions': ['mode S for raft.rs and raw_node.rs (fatal!/panic!/assert! abort; postconditions hold on normal return)',
                          'assumed contracts (fingerprint-locked in spec/assumed.lock.json): ProgressTracker::{get_mut, record_vote, clear}, '
-                         'Configuration::to_conf_state, Raft::has_unapplied_conf_changes (K-ext Kani), RaftCore::try_batching (K-ext Kani); '
-                         'ReadOnly is under contract over a byte-keyed view of its table: the five std HashMap operations with Vec<u8> / &[u8] keys are specified helpers (verif_ri_*)',
+                         'Configuration::to_conf_state, Raft::has_unapplied_conf_changes (K-ext Kani), RaftCore::try_batching (K-ext Kani); ReadOnly is under '
+                         'contract over a byte-keyed view of its table: the five std HashMap operations with Vec<u8> / &[u8] keys are specified helpers '
+                         '(verif_ri_*)',
                          'specified helpers for std / protobuf calls (R9) and the three cut texts (R10) listed in the evidence file'],
          'cone': {'P': [], 'S': ['raft']},
          'bounded': ["mon_cluster --prop C03: committed prefixes are contained in every later leader's log; one value per applied index"]},
  'C06': {'title': 'Promises survive crashes: persist-before-send, one vote per term',
-         'modules': ['top', 'prelude', 'pb', 'inflights', 'progress', 'quorum', 'tracker', 'log_unstable', 'storage_trait', 'raft_log', 'raft', 'raw_node', 'memstorage'],
+         'modules': ['top',
+                     'prelude',
+                     'pb',
+                     'inflights',
+                     'progress',
+                     'quorum',
+                     'tracker',
+                     'log_unstable',
+                     'storage_trait',
+                     'raft_log',
+                     'raft',
+                     'raw_node',
+                     'memstorage'],
          'body': {'S': []},
          'modes': ['S'],
          'claim': 'PARTIAL (per call: term monotone, one vote per term, restart state, release discipline of Ready)',
          'decided': ['every handler keeps step_frame: the term never decreases, the vote changes only together with the term or from none; load_state restores '
                      "(term, vote, commit) exactly; RawNode::ready: a non-leader's messages are persisted messages; a leader's messages are released at once "
                      'only if neither this Ready nor an outstanding (unpersisted) one carries a new term or vote; must_sync whenever entries, a snapshot or a '
-                     'new term/vote are handed out; the record pushed for the Ready carries what on_persist_ready needs'],
+                     'new term/vote are handed out; the record pushed for the Ready carries what on_persist_ready needs',
+                     'restart: Raft::new restores (term, vote) exactly from the stored hard state and starts as a silent follower (no leader, empty outbox) '
+                     'with the commit index max(stored commit, first index - 1); RawNode::new likewise; MemStorageCore::apply_snapshot never lowers the stored '
+                     'term and keeps the stored vote'],
          'undecided': ['the crash-point statement over all schedules'],
          'assumptions': ['mode S for raft.rs and raw_node.rs (fatal!/panic!/assert! abort; postconditions hold on normal return)',
                          'assumed contracts (fingerprint-locked in spec/assumed.lock.json): ProgressTracker::{get_mut, record_vote, clear}, '
-                         'Configuration::to_conf_state, Raft::has_unapplied_conf_changes (K-ext Kani), RaftCore::try_batching (K-ext Kani); '
-                         'ReadOnly is under contract over a byte-keyed view of its table: the five std HashMap operations with Vec<u8> / &[u8] keys are specified helpers (verif_ri_*)',
+                         'Configuration::to_conf_state, Raft::has_unapplied_conf_changes (K-ext Kani), RaftCore::try_batching (K-ext Kani); ReadOnly is under '
+                         'contract over a byte-keyed view of its table: the five std HashMap operations with Vec<u8> / &[u8] keys are specified helpers '
+                         '(verif_ri_*)',
                          'specified helpers for std / protobuf calls (R9) and the three cut texts (R10) listed in the evidence file'],
          'cone': {'S': ['raft', 'raw_node', 'memstorage']},
-         'bounded': ['mon_c06: every message checked at release time against the durable hard state (sync + async readies)']},
+         'bounded': ['mon_c06: every message checked at release time against the durable hard state (sync + async readies)',
+                     'mon_c06: crashes - the node restarts from a durable image holding exactly the Readys reported persisted plus possibly a prefix of the '
+                     'oldest unfinished write; after a restart the term is not below any released message and the vote is the one told']},
  'C16': {'title': 'PreVote + CheckQuorum: a node that cannot win does not disrupt the cluster',
          'modules': ['top', 'prelude', 'pb', 'inflights', 'progress', 'quorum', 'tracker', 'log_unstable', 'storage_trait', 'raft_log', 'raft'],
          'body': {'S': []},
@@ -182,12 +207,17 @@ PROPS = {'C18': {'title': 'Inflights window is a bounded FIFO under resizing',
          'decided': ['handling MsgRequestPreVote never changes term or vote; a granted pre-vote response never makes a node that is not a pre-candidate adopt '
                      'its term; a pre-candidate ignores grants of another round; a vote request inside the leader lease (check_quorum, known leader, election '
                      'timeout not elapsed, not a transfer) is ignored without any change; poll/campaign: a lost pre-vote leaves the term unchanged; '
-                     'step_leader / step_follower ignore vote responses'],
+                     'step_leader / step_follower ignore vote responses',
+                     'a follower restarts its election timer and records the sender as leader on every MsgAppend / MsgHeartbeat / MsgSnapshot of the current '
+                     'term (the handlers themselves never touch timer or leader); MsgCheckQuorum: the leader stays leader iff the peers heard from since the '
+                     'last check (itself included) are a quorum of the (joint) configuration, otherwise it becomes a leaderless follower of the same term; the '
+                     'activity flags are reset'],
          'undecided': ['"a healthy leader is never deposed" as a history statement'],
          'assumptions': ['mode S for raft.rs and raw_node.rs (fatal!/panic!/assert! abort; postconditions hold on normal return)',
                          'assumed contracts (fingerprint-locked in spec/assumed.lock.json): ProgressTracker::{get_mut, record_vote, clear}, '
-                         'Configuration::to_conf_state, Raft::has_unapplied_conf_changes (K-ext Kani), RaftCore::try_batching (K-ext Kani); '
-                         'ReadOnly is under contract over a byte-keyed view of its table: the five std HashMap operations with Vec<u8> / &[u8] keys are specified helpers (verif_ri_*)',
+                         'Configuration::to_conf_state, Raft::has_unapplied_conf_changes (K-ext Kani), RaftCore::try_batching (K-ext Kani); ReadOnly is under '
+                         'contract over a byte-keyed view of its table: the five std HashMap operations with Vec<u8> / &[u8] keys are specified helpers '
+                         '(verif_ri_*)',
                          'specified helpers for std / protobuf calls (R9) and the three cut texts (R10) listed in the evidence file'],
          'cone': {'S': ['raft']}},
  'C07': {'title': 'Ready contract: exact, ordered, persisted-only hand-off of entries',
@@ -200,12 +230,15 @@ PROPS = {'C18': {'title': 'Inflights window is a bounded FIFO under resizing',
                      'hs/ss iff changed, snapshot with no committed entries, committed entries are the contiguous limit-prefix starting right after '
                      'commit_since_index and never beyond min(committed, persisted + limit), messages moved out once; commit_ready stabilises exactly what the '
                      'record holds and never moves persisted; on_persist_ready acknowledges the leading records <= the number and reports only what they hold; '
-                     'advance_append = commit_ready + on_persist_ready(max_number) + light ready with the commit index iff advanced'],
+                     'advance_append = commit_ready + on_persist_ready(max_number) + light ready with the commit index iff advanced',
+                     'advance = advance_append followed by advance_apply_to(the commit_since_index BEFORE the light ready); advance_apply / advance_apply_to '
+                     'move the applied index exactly to the given index (0: unchanged) and change nothing else of the Ready bookkeeping'],
          'undecided': ['exactly-once over the lifetime'],
          'assumptions': ['mode S for raft.rs and raw_node.rs (fatal!/panic!/assert! abort; postconditions hold on normal return)',
                          'assumed contracts (fingerprint-locked in spec/assumed.lock.json): ProgressTracker::{get_mut, record_vote, clear}, '
-                         'Configuration::to_conf_state, Raft::has_unapplied_conf_changes (K-ext Kani), RaftCore::try_batching (K-ext Kani); '
-                         'ReadOnly is under contract over a byte-keyed view of its table: the five std HashMap operations with Vec<u8> / &[u8] keys are specified helpers (verif_ri_*)',
+                         'Configuration::to_conf_state, Raft::has_unapplied_conf_changes (K-ext Kani), RaftCore::try_batching (K-ext Kani); ReadOnly is under '
+                         'contract over a byte-keyed view of its table: the five std HashMap operations with Vec<u8> / &[u8] keys are specified helpers '
+                         '(verif_ri_*)',
                          'specified helpers for std / protobuf calls (R9) and the three cut texts (R10) listed in the evidence file',
                          'VecDeque::front/back standard semantics'],
          'cone': {'P': [], 'S': []},
@@ -222,12 +255,16 @@ PROPS = {'C18': {'title': 'Inflights window is a bounded FIFO under resizing',
          'undecided': ['log matching between nodes (cluster statement)'],
          'assumptions': ['mode S for raft.rs and raw_node.rs (fatal!/panic!/assert! abort; postconditions hold on normal return)',
                          'assumed contracts (fingerprint-locked in spec/assumed.lock.json): ProgressTracker::{get_mut, record_vote, clear}, '
-                         'Configuration::to_conf_state, Raft::has_unapplied_conf_changes (K-ext Kani), RaftCore::try_batching (K-ext Kani); '
-                         'ReadOnly is under contract over a byte-keyed view of its table: the five std HashMap operations with Vec<u8> / &[u8] keys are specified helpers (verif_ri_*)',
+                         'Configuration::to_conf_state, Raft::has_unapplied_conf_changes (K-ext Kani), RaftCore::try_batching (K-ext Kani); ReadOnly is under '
+                         'contract over a byte-keyed view of its table: the five std HashMap operations with Vec<u8> / &[u8] keys are specified helpers '
+                         '(verif_ri_*)',
                          'specified helpers for std / protobuf calls (R9) and the three cut texts (R10) listed in the evidence file',
                          'R10: the stamping loop of append_entry'],
          'cone': {'P': [], 'S': ['raft']},
-         'bounded': ['mon_c14', 'mon_cluster --prop C05: log matching between every pair of nodes']},
+         'bounded': ['mon_c14',
+                     'mon_cluster --prop C05: log matching between every pair of nodes',
+                     'K-ext c13_try_batching (Kani + native enumeration): every MsgAppend in the outbox stays a contiguous run anchored at its own index after '
+                     'batching']},
  'C04': {'title': 'Commit rule: only own-term entries that are durable on a quorum',
          'modules': ['top', 'prelude', 'pb', 'inflights', 'progress', 'quorum', 'tracker', 'log_unstable', 'storage_trait', 'raft_log', 'raft', 'raw_node'],
          'body': {'P': ['quorum', 'tracker', 'log_unstable', 'raft_log'], 'S': ['quorum', 'tracker', 'log_unstable', 'raft_log']},
@@ -243,8 +280,9 @@ PROPS = {'C18': {'title': 'Inflights window is a bounded FIFO under resizing',
          'undecided': ['durability on a quorum as a cluster statement'],
          'assumptions': ['mode S for raft.rs and raw_node.rs (fatal!/panic!/assert! abort; postconditions hold on normal return)',
                          'assumed contracts (fingerprint-locked in spec/assumed.lock.json): ProgressTracker::{get_mut, record_vote, clear}, '
-                         'Configuration::to_conf_state, Raft::has_unapplied_conf_changes (K-ext Kani), RaftCore::try_batching (K-ext Kani); '
-                         'ReadOnly is under contract over a byte-keyed view of its table: the five std HashMap operations with Vec<u8> / &[u8] keys are specified helpers (verif_ri_*)',
+                         'Configuration::to_conf_state, Raft::has_unapplied_conf_changes (K-ext Kani), RaftCore::try_batching (K-ext Kani); ReadOnly is under '
+                         'contract over a byte-keyed view of its table: the five std HashMap operations with Vec<u8> / &[u8] keys are specified helpers '
+                         '(verif_ri_*)',
                          'specified helpers for std / protobuf calls (R9) and the three cut texts (R10) listed in the evidence file',
                          'VecDeque::front/back standard semantics'],
          'bounded': ['mon_c04: single-voter RawNode with late / repeated / stale notices', 'mon_cluster --prop C04']},
@@ -288,12 +326,15 @@ PROPS = {'C18': {'title': 'Inflights window is a bounded FIFO under resizing',
                      'the requested one (none pending, or older than requested) only advances the commit index and discards nothing; otherwise '
                      'RaftLog::restore: commit = index, boundary term = snapshot term, appends continue at index+1; request_snapshot asks for the whole log '
                      '(last index) and changes nothing when dropped; prepare_send_snapshot never sends older than requested; handle_snapshot_status / '
-                     'handle_append_response resume replication after the snapshot index; the configuration is rebuilt by confchange::restore (C12)'],
+                     'handle_append_response resume replication after the snapshot index; the configuration is rebuilt by confchange::restore (C12)',
+                     "after an install the tracker's configuration equals the snapshot's ConfState (component-wise); ProgressTracker::clear empties progress, "
+                     'votes and configuration'],
          'undecided': ['application state equality (outside the library)'],
          'assumptions': ['mode S for raft.rs and raw_node.rs (fatal!/panic!/assert! abort; postconditions hold on normal return)',
                          'assumed contracts (fingerprint-locked in spec/assumed.lock.json): ProgressTracker::{get_mut, record_vote, clear}, '
-                         'Configuration::to_conf_state, Raft::has_unapplied_conf_changes (K-ext Kani), RaftCore::try_batching (K-ext Kani); '
-                         'ReadOnly is under contract over a byte-keyed view of its table: the five std HashMap operations with Vec<u8> / &[u8] keys are specified helpers (verif_ri_*)',
+                         'Configuration::to_conf_state, Raft::has_unapplied_conf_changes (K-ext Kani), RaftCore::try_batching (K-ext Kani); ReadOnly is under '
+                         'contract over a byte-keyed view of its table: the five std HashMap operations with Vec<u8> / &[u8] keys are specified helpers '
+                         '(verif_ri_*)',
                          'specified helpers for std / protobuf calls (R9) and the three cut texts (R10) listed in the evidence file'],
          'cone': {'P': [], 'S': ['raft']},
          'bounded': []},
@@ -307,12 +348,17 @@ PROPS = {'C18': {'title': 'Inflights window is a bounded FIFO under resizing',
                      'change fits the configuration (leave iff joint, classified as it will be applied); a refused one becomes an empty normal entry; '
                      'pending_conf_index is the index of the kept one; become_leader sets pending_conf_index to the last index; hup: a leader, a non-voter, a '
                      'node with an unapplied change ignore it; tick_election / MsgTimeoutNow need promotable; post_conf_change recomputes promotable from the '
-                     "configuration and returns the configuration's ConfState"],
+                     "configuration and returns the configuration's ConfState",
+                     'commit_apply: the automatic leave-joint proposal fires iff the configuration is an auto-leave joint one, the applied index passes '
+                     'pending_conf_index and the node leads; the appended entry is an empty EntryConfChangeV2 of the current term and becomes the pending '
+                     'change; a (pre-)candidate that learns through a vote message that a membership change in (commit, new commit] is committed and unapplied '
+                     "becomes follower; Raft::new: the tracker's configuration equals the stored ConfState and promotable iff voter"],
          'undecided': ['identical configurations at equal applied index across nodes (history statement)'],
          'assumptions': ['mode S for raft.rs and raw_node.rs (fatal!/panic!/assert! abort; postconditions hold on normal return)',
                          'assumed contracts (fingerprint-locked in spec/assumed.lock.json): ProgressTracker::{get_mut, record_vote, clear}, '
-                         'Configuration::to_conf_state, Raft::has_unapplied_conf_changes (K-ext Kani), RaftCore::try_batching (K-ext Kani); '
-                         'ReadOnly is under contract over a byte-keyed view of its table: the five std HashMap operations with Vec<u8> / &[u8] keys are specified helpers (verif_ri_*)',
+                         'Configuration::to_conf_state, Raft::has_unapplied_conf_changes (K-ext Kani), RaftCore::try_batching (K-ext Kani); ReadOnly is under '
+                         'contract over a byte-keyed view of its table: the five std HashMap operations with Vec<u8> / &[u8] keys are specified helpers '
+                         '(verif_ri_*)',
                          'specified helpers for std / protobuf calls (R9) and the three cut texts (R10) listed in the evidence file',
                          'protobuf decoding of proposed membership changes (uninterpreted)'],
          'cone': {'S': ['raft']},
@@ -331,8 +377,9 @@ PROPS = {'C18': {'title': 'Inflights window is a bounded FIFO under resizing',
          'undecided': ['completion in a healthy cluster'],
          'assumptions': ['mode S for raft.rs and raw_node.rs (fatal!/panic!/assert! abort; postconditions hold on normal return)',
                          'assumed contracts (fingerprint-locked in spec/assumed.lock.json): ProgressTracker::{get_mut, record_vote, clear}, '
-                         'Configuration::to_conf_state, Raft::has_unapplied_conf_changes (K-ext Kani), RaftCore::try_batching (K-ext Kani); '
-                         'ReadOnly is under contract over a byte-keyed view of its table: the five std HashMap operations with Vec<u8> / &[u8] keys are specified helpers (verif_ri_*)',
+                         'Configuration::to_conf_state, Raft::has_unapplied_conf_changes (K-ext Kani), RaftCore::try_batching (K-ext Kani); ReadOnly is under '
+                         'contract over a byte-keyed view of its table: the five std HashMap operations with Vec<u8> / &[u8] keys are specified helpers '
+                         '(verif_ri_*)',
                          'specified helpers for std / protobuf calls (R9) and the three cut texts (R10) listed in the evidence file'],
          'cone': {'S': ['raft']},
          'bounded': []},
@@ -346,11 +393,15 @@ PROPS = {'C18': {'title': 'Inflights window is a bounded FIFO under resizing',
                      'recorded with the current commit index and a heartbeat round tagged with its context; handle_heartbeat_response / post_conf_change '
                      'release reads only after a quorum of the active configuration acknowledged the context, and only the queue prefix up to it; '
                      'handle_ready_read_index routes the answer to the origin; step_follower forwards reads to the leader and records MsgReadIndexResp on the '
-                     'requester; reset drops pending reads'],
+                     'requester; reset drops pending reads',
+                     'ReadOnly itself: add_request records (commit index, request, own ack) once per context (duplicates ignored), recv_ack adds the '
+                     'acknowledgement to that context only, advance releases exactly the queue prefix up to the first occurrence of the context with the '
+                     'indexes recorded at request time and forgets them; queue and table stay consistent (every queued context pending, none queued twice)'],
          'undecided': ['linearizability over all schedules'],
          'assumptions': ['mode S for raft.rs and raw_node.rs (fatal!/panic!/assert! abort; postconditions hold on normal return)',
                          'assumed contracts (fingerprint-locked in spec/assumed.lock.json): ProgressTracker::{get_mut, record_vote, clear}, '
-                         'Configuration::to_conf_state, Raft::has_unapplied_conf_changes (K-ext Kani), RaftCore::try_batching (K-ext Kani); '
-                         'ReadOnly is under contract over a byte-keyed view of its table: the five std HashMap operations with Vec<u8> / &[u8] keys are specified helpers (verif_ri_*)',
+                         'Configuration::to_conf_state, Raft::has_unapplied_conf_changes (K-ext Kani), RaftCore::try_batching (K-ext Kani); ReadOnly is under '
+                         'contract over a byte-keyed view of its table: the five std HashMap operations with Vec<u8> / &[u8] keys are specified helpers '
+                         '(verif_ri_*)',
                          'specified helpers for std / protobuf calls (R9) and the three cut texts (R10) listed in the evidence file'],
          'bounded': ['mon_cluster --prop C08: every ReadState on the issuing node with index >= the highest commit index at issue time']}}
